@@ -187,8 +187,8 @@ func (t *memRT) RoundTrip(req *http.Request) (*http.Response, error) {
 		raw, _ = io.ReadAll(req.Body)
 		req.Body.Close()
 	}
-	w.logOut(req, raw)
 	yield(req.Context()) // a scheduling point of the cooperative interleaving runs
+	w.logOut(req, raw)   // what the request carries when it really goes out (after the other requests had their turn)
 	if w.bounce.Load() {
 		q := u.Query()
 		if q.Get("bounced") == "" {
@@ -267,12 +267,16 @@ type outReq struct {
 	aud    int // tenant named by the aud of a client assertion (0 = no assertion)
 	path   string
 	form   url.Values
+	query  url.Values
+	auth   string // Authorization header
 }
 
 func (w *world) logOut(req *http.Request, raw []byte) {
 	o := outReq{tenant: tenantOfURL(req.URL.Scheme + "://" + req.URL.Host), path: req.URL.Path}
 	o.handle, _ = req.Context().Value(coopKey{}).(*coopReq)
 	o.form, _ = url.ParseQuery(string(raw))
+	o.query = req.URL.Query()
+	o.auth = req.Header.Get("Authorization")
 	if a := o.form.Get("client_assertion"); a != "" {
 		o.aud = 90
 		if p := opfix.JWTPayload(a); p != nil {
@@ -755,6 +759,19 @@ func (w *world) codeFlowT(t int, clientID, redirect string) (code string) {
 	f.Store.Login(id, "alice")
 	cb := f.Callback(opfix.Provider, id)
 	return cb.ResponseParams().Get("code")
+}
+
+// a fresh access token of `user` (client web) from tenant 1
+func (w *world) userToken(user string) string {
+	f := w.backend
+	q := url.Values{"client_id": {"web"}, "redirect_uri": {"https://web.example.com/cb"}, "response_type": {"code"},
+		"scope": {"openid profile"}, "state": {"st"}}
+	_, id := f.Authorize(opfix.Provider, q)
+	f.Store.Login(id, user)
+	code := f.Callback(opfix.Provider, id).ResponseParams().Get("code")
+	r := f.Post(opfix.Provider, "/oauth/token", url.Values{"grant_type": {"authorization_code"}, "code": {code},
+		"redirect_uri": {"https://web.example.com/cb"}}, []string{"web", "web-secret"}, "")
+	return r.Str("access_token")
 }
 
 func (w *world) tokens() *tokens { return w.tokensT(1) }
